@@ -307,21 +307,33 @@ def _vhdx_parent(rng, ctx, c, cnt, sample, res):
 # ----------------------------------------------------------------------------------------- VMDK
 
 
+ODD_SEPARATORS = "\u2028\u2029\x85\x0b\x0c\x1c\x1d\x1e"
+
+
+def _odd(rng, s: str, p: float = 0.2) -> str:
+    """Now and then a character inside the value that some line-splitting routines (not the format, whose lines end in LF)
+    treat as a line end."""
+    if len(s) >= 2 and rng.random() < p:
+        i = rng.randrange(1, len(s))
+        return s[:i] + "a" + rng.choice(ODD_SEPARATORS) + "b" + s[i:]
+    return s
+
+
 def _descriptor_model(rng):
     attr = {"version": "1", "CID": f"{rng.getrandbits(32):08x}", "parentCID": "ffffffff", "createType": rng.choice(["monolithicSparse", "vmfs", "twoGbMaxExtentFlat", "streamOptimized"])}
     extra = {}
     for _ in range(rng.randrange(0, 4)):
-        extra[_text(rng, rng.randrange(1, 12), "abcdefXYZ")] = _text(rng, rng.randrange(1, 30), "abc XYZ-0189/é日😀").strip() or "v"
+        extra[_text(rng, rng.randrange(1, 12), "abcdefXYZ")] = _odd(rng, _text(rng, rng.randrange(1, 30), "abc XYZ-0189/é日😀").strip() or "v")
     ddb = {}
     for k in ("ddb.virtualHWVersion", "ddb.geometry.cylinders", "ddb.geometry.heads", "ddb.adapterType", "ddb.uuid", "ddb.longContentID", "ddb.toolsVersion"):
         if rng.random() < 0.7:
             ddb[k] = _text(rng, rng.randrange(1, 40), "0123456789abcdef -").strip() or "0"
     for _ in range(rng.randrange(0, 3)):
-        ddb["ddb." + _text(rng, rng.randrange(1, 10), "abcXYZ.")] = _text(rng, rng.randrange(1, 20), "abc 123é").strip() or "x"
+        ddb["ddb." + _text(rng, rng.randrange(1, 10), "abcXYZ.")] = _odd(rng, _text(rng, rng.randrange(1, 20), "abc 123é").strip() or "x")
     exts = []
     for j in range(rng.randrange(1, 6)):
         kind = rng.choice(["SPARSE", "FLAT", "VMFS", "VMFSSPARSE", "SESPARSE", "ZERO"])
-        name = (_text(rng, rng.randrange(1, 20), "abc 019-_é日😀#()").strip() or "d") + f"-{j}.vmdk"
+        name = _odd(rng, _text(rng, rng.randrange(1, 20), "abc 019-_é日😀#()").strip() or "d", 0.15) + f"-{j}.vmdk"
         if rng.random() < 0.2:
             # an inner quote followed by a blank and a few words (looks like the end of the quoted name, is not)
             name = rng.choice(['copy of "web 01" (old)', 'vm "restored', 'a" 7 b', 'q" 0', 'x" 1 2 y']) + f"-{j}.vmdk"
